@@ -4,7 +4,7 @@ import sys
 from props import _cluster
 
 THEOREMS = ['XmlDiffModel.C03_equal_documents_empty_script', 'XmlDiffModel.C03_empty_script_iff_equal', 'XmlDiffModel.C03_different_documents_nonempty_script', 'XmlDiffModel.C03_empty_script_left_unchanged', 'XmlDiffModel.C03_empty_script_empty_text']
-PARTIAL = {'C03_oracle_and_formatters': "proved, for documents of any size and shape and every option set with 0 < F <= 1.0, in the default mode, with best_match and with fast_match: equal documents (up to attribute order and ignored attributes) get the empty script and the working copy stays the left document (C03_equal_documents_empty_script: the matcher pairs every node with its counterpart - EqMatch.lean, using the maximality of the LCS helper for fast_match - and then no generator step emits anything - EqScript.lean); different documents never get an empty script; both together: C03_empty_script_iff_equal. ASSUMED about the similarity oracle, because node_ratio's float arithmetic (SequenceMatcher ratio, sqrt) is not modelled, and checked against the real node_ratio on every equal pair of every run (unit U2eq): a node against its counterpart scores exactly 1.0 when all children are matched (SimOK); for fast_match, a node reaching F against anything on empty maps reaches F against its counterpart (FastOK). NOT proved: that the 'xml' formatter returns the document without markup for an empty script (decided per run by C08-C10 machinery and the C14 oracle); namespaced documents."}
+PARTIAL = {'C03_oracle_and_formatters': "proved, for documents of any size and shape and every option set with 0 < F <= 1.0, in the default mode, with best_match and with fast_match: equal documents (up to attribute order and ignored attributes) get the empty script and the working copy stays the left document (C03_equal_documents_empty_script: the matcher pairs every node with its counterpart - EqMatch.lean, using the maximality of the LCS helper for fast_match - and then no generator step emits anything - EqScript.lean); different documents never get an empty script; both together: C03_empty_script_iff_equal. ASSUMED about the similarity oracle, because node_ratio's float arithmetic (SequenceMatcher ratio, sqrt) is not modelled, and checked against the real node_ratio on every equal pair of every run (unit U2eq): a node against its counterpart scores exactly 1.0 when all children are matched (SimOK); for fast_match, a node reaching F against anything on empty maps reaches F against its counterpart (FastOK). For the 'xml' formatter and the empty script, the model-level statement is C11_prepare_then_finalize (Props/C11.lean): prepare substitutes both documents, nothing is replayed, finalize (undo_tree) returns the left document up to the normal form - for documents without a text tag inside a text tag; the serialisation and the nested case are decided per run by the C08-C10 machinery and the C14 oracle."}
 LEAN_MODULES = ['XmlDiffModel.Props.C01', 'XmlDiffModel.Props.C03']
 SOURCES = ['diff.Differ.match', 'diff.Differ.diff', 'diff.Differ.node_ratio', 'diff.Differ.leaf_ratio', 'diff.Differ.child_ratio', 'diff.Differ.node_text']
 RULE = "Differ cluster, streams 'equal' (a document against its copy, incl. many identical siblings / repeated subtrees / duplicate unique-attribute values, all option combinations) and 'main' (different documents): oracle = script empty iff documents equal under the property's equality. Non-trivial = document with >= 2 identical siblings or script with >= 2 action types; distinct by (L, R, options)."
